@@ -272,7 +272,21 @@ func ErrKnownNonNil(v ssa.Value, nonNil map[ssa.Value]bool) bool {
 			_, isGlobal := x.X.(*ssa.Global)
 			return isGlobal
 		case *ssa.Call:
-			return IsCallTo(x, "fmt", "Errorf") || IsCallTo(x, "errors", "New")
+			if IsCallTo(x, "fmt", "Errorf") || IsCallTo(x, "errors", "New") {
+				return true
+			}
+			// a wrapping helper: a function (with a body) whose every return yields a certainly non-nil error
+			if h := x.Call.StaticCallee(); h != nil && len(h.Blocks) > 0 && h.Signature.Results().Len() == 1 && IsErrorType(h.Signature.Results().At(0).Type()) {
+				n := 0
+				for _, ret := range Returns(h) {
+					n++
+					if len(ret.Results) != 1 || !rec(ret.Results[0]) {
+						return false
+					}
+				}
+				return n > 0
+			}
+			return false
 		case *ssa.Phi:
 			for _, e := range x.Edges {
 				if !rec(e) {
